@@ -1,5 +1,6 @@
 //! Per-property workloads and budgets.
 
+pub mod alias;
 pub mod c02;
 pub mod c04;
 pub mod c06;
@@ -131,7 +132,8 @@ pub fn dispatch(a: &Args) -> Option<(Acc, RunMeta)> {
             Some((acc, meta(a, "seeded random histories (8-25 steps) of the typed C01 domain in lock-step with the abstract tree model on generated configurations (Mem, Phys, Alt, Ovl 1-4 layers with generated conflict-free pre-population, stackings to depth 3); distinct = distinct observable states (tree+bytes fingerprint) reached after a step", ENGINE_ASSUMPTIONS)))
         }
         "C09" => {
-            let acc = engine::run(&spec(a, "c09-ovl", a.n(4000, 45000), (8, 25), Domain::typed(), cfg_overlay_top, true, Some("C09")));
+            let mut acc = engine::run(&spec(a, "c09-ovl", a.n(4000, 45000), (8, 25), Domain::typed(), cfg_overlay_top, true, Some("C09")));
+            acc.merge(alias::run(a));
             Some((acc, meta(a, "seeded random histories of the typed C01 domain on a top-level OverlayFS with 1-4 generated layers (Mem/Phys/Alt/nested Ovl, conflict-free pre-population, same path in several layers), model initialised with the layer union; distinct = distinct observable states", ENGINE_ASSUMPTIONS)))
         }
         "C10" => {
